@@ -14,7 +14,7 @@ there are two crossings and runs from the smaller to the larger parameter on the
 max_intersection is the maximum over the same list; Intersection<&SurfacePoint2> casts Ray(point, normal); the traversal
 visitor records a leaf exactly when its lane of the box test is set and prunes with the same mask; the slab test starts from
 (f64::MIN, f64::MAX) so negative parameters are admitted, handles zero direction lanes through the `is_not_zero` select;
-farthest_point_direction_distance is a running maximum from f64::MIN of n.(v - origin) over EVERY vertex; the parallel cut-off is <= 1e-12."""
+farthest_point_direction_distance is a running maximum from f64::MIN of n.(v - origin) over EVERY vertex; the parallel cut-off is <= 1e-12. The per-edge range test is accepted in three spellings (nested if-let, filter+map, and_then+then_some)."""
 NOT_DECIDED = "COMPLETENESS - that the hand-written SIMD slab test never prunes a node containing a crossing: lane-wise floating-point reasoning, the heart of C06"
 ASSUMPTIONS = ["parry Qbvh::traverse_depth_first visits every node whose mask lane is set"]
 
